@@ -160,6 +160,11 @@ def coerce(sv, ty, classes=None):
     if isinstance(ty, TRef) and isinstance(s, TRef) and classes is not None:
         if classes.is_subclass(s.cls, ty.cls):
             return SV(ty, sv.t)
+    if isinstance(ty, TFun) and isinstance(s, TFun) and ty.name == 'dt' and s.name == 'sdt':
+        # a section datatype stored where a key datatype is expected (BaseInfo.datatype of a section
+        # slot, never called as a key datatype): an opaque embedding
+        from .strops import ufun
+        return SV(ty, ufun('dt_of_sdt', s.sort(), ty.sort())(sv.t))
     if ty == TInt and s == TBool:
         return SV(TInt, z3.If(sv.t, z3.IntVal(1), z3.IntVal(0)))
     if isinstance(ty, TOpaque) and ty.name == 'PyVal' and not isinstance(s, TOpaque) and not is_bottom_container(s):
@@ -263,6 +268,11 @@ def eq_term(a, b, classes=None):
         if len(a.ty.items) != len(b.ty.items):
             return z3.BoolVal(False)
         return z3.And([eq_term(x, y, classes) for x, y in zip(a.t, b.t)])
+    if isinstance(a.ty, TMap) and isinstance(b.ty, TMap) and (a.ty.k is TBottom or b.ty.k is TBottom):
+        if a.ty.k is TBottom and b.ty.k is TBottom:
+            return z3.BoolVal(True)
+        # `m == {}`: the canonical empty mapping of that type (what storing an empty dict literal gives)
+        return (b.t == empty_map(b.ty)) if a.ty.k is TBottom else (a.t == empty_map(a.ty))
     if isinstance(a.ty, TSeq) and isinstance(b.ty, TSeq):
         if a.ty.elem is TBottom:
             return z3.Length(b.t) == 0
